@@ -108,7 +108,7 @@ CHECKS["C07"] = dict(
     level_text="Every well-formed item of the bounded grammar (all major types, every head width incl. non-preferred, definite/indefinite/chunked strings, containers with 0..2 children to depth 3, tags) is decoded by the real CdnsDecoder at stream offset 0 and at every offset that makes it straddle the 65535-byte refill boundary (first and second refill); the matching read must return the generator's value and skip_item must leave the sentinel as the next item.",
     level_note="Trusted: ref/cbor.hpp generator (self-checked: decode(encode(x)) re-encodes identically). Outside the bound: nesting deeper than 3, more than 2 children, negative integers below -2^63 (skip only).",
     stages=[dict(harness="gram", variant="asan")],
-    rule="items x offsets enumerated exhaustively; each (item, offset) runs peek+matching read, read_integer, skip_item and read_array on fresh decoders; every case is distinct and non-trivial (a real decode compared with ground truth)",
+    rule="items x offsets enumerated exhaustively; each (item, offset) runs peek+matching read, read_integer, skip_item and read_array on fresh decoders; every case is distinct and non-trivial (a real decode compared with ground truth); phases 1..6 repeat the first and last offset of every item right after a decoder call that failed part-way on the same thread (six kinds of truncated / malformed input), in freshly forked workers per phase",
     bound_quick="reduced head-width set (preferred + widest), child alphabet thinned 1:3; offsets: 0 and every split around 65535 and 131070",
     bound_thorough="every head width, full child alphabet, same offsets (items up to 400 bytes: every split)",
     assumptions=["string payloads follow one byte pattern per length"],
@@ -192,11 +192,11 @@ CHECKS["C11"] = dict(
     level="model_checking", engine="E-BLK",
     technique="explicit-state model checking of the implementation: every add/get/find/clear sequence up to a depth on each of the nine real block tables against a vector + linear search model; growth runs; exhaustive hash/equality pairs",
     level_text="For each of the nine block tables every operation sequence up to the depth bound over {add(v) for a pool of values differing in exactly one member (absent vs present-0 vs present-1), get(0), get(1), get(size), find(v0), find(v1), clear} runs on a real CdnsBlock; returned indices, retrieved values, sizes and find results must equal the model's after every step, and all stored entries must still be retrievable at the end. Growth: N distinct values then each re-added per table (deque chunk boundaries, rehash). Hash/equality: all pairs of a 600-value signature pool and the RR / malformed-message-data pools: equal => equal hash, unequal whenever a member differs. Through the exporter (E-HIST, every history of C01/C02/C12): no block of any output contains two equal table entries or an entry unreachable from its items.",
-    level_note="Trusted: model = std::vector + linear search on canonical strings. Pools are small by design (collisions are forced); table contents larger than 20000 entries are outside the bound.",
+    level_note="Trusted: model = std::vector + linear search on canonical strings. Pools are small by design (collisions are forced); table contents larger than 200000 entries are outside the bound.",
     stages=[dict(harness="blk", variant="asan", args=["--mode", "tables"]),
             dict(harness="hist", variant="plain", args=["--mode", "roundtrip"], prefix="exporter_")],
     rule="stateless DFS per table over (pool size + 6) operations, every sequence of length 2..D; all distinct and non-trivial",
-    bound_quick="depth 5; growth N = 5000", bound_thorough="depth 6; growth N = 20000",
+    bound_quick="depth 5; growth N = 70000 (beyond 16-bit indices)", bound_thorough="depth 6; growth N = 200000",
     assumptions=[],
 )
 
